@@ -100,20 +100,70 @@ Definition quote (s : str) : str := """"%char :: quote_body s ++ [""""%char].
 Definition show_list (items : list str) : str :=
   lit "[" ++ concat_str (lit ", ") items ++ lit "]".
 
-(** strings.TrimSpace, ASCII white space only (see DESIGN trusted base) *)
+(** unicode.IsSpace over the UTF-8 bytes of a Go string: the six ASCII blanks, U+0085 and U+00A0 (two bytes),
+    U+1680, U+2000..U+200A, U+2028, U+2029, U+202F, U+205F, U+3000 (three bytes). A byte that does not complete
+    one of these sequences is not white space (an invalid or truncated sequence decodes to U+FFFD). *)
 Definition is_space (c : ascii) : bool :=
   Ascii.eqb c c_space || in_range 9 13 c.
-Fixpoint trim_left (s : str) : str :=
-  match s with c :: s' => if is_space c then trim_left s' else s | [] => [] end.
-Definition trim_space (s : str) : str := rev (trim_left (rev (trim_left s))).
+Definition byte_is (n : N) (c : ascii) : bool := N.eqb (code c) n.
+Definition is_space2 (c d : ascii) : bool :=
+  byte_is 194 c && (byte_is 133 d || byte_is 160 d).
+Definition is_space3 (c d e : ascii) : bool :=
+  (byte_is 225 c && byte_is 154 d && byte_is 128 e)
+  || (byte_is 226 c && byte_is 128 d && (in_range 128 138 e || byte_is 168 e || byte_is 169 e || byte_is 175 e))
+  || (byte_is 226 c && byte_is 129 d && byte_is 159 e)
+  || (byte_is 227 c && byte_is 128 d && byte_is 128 e).
 
-(** strings.Fields, ASCII white space only *)
-Fixpoint fields_aux (s : str) (cur : str) : list str :=
+(** strings.TrimSpace *)
+Fixpoint trim_left (s : str) : str :=
   match s with
-  | [] => match cur with [] => [] | _ => [rev cur] end
-  | c :: s' => if is_space c
-               then match cur with [] => fields_aux s' [] | _ => rev cur :: fields_aux s' [] end
-               else fields_aux s' (c :: cur)
+  | [] => []
+  | c :: s1 =>
+    if is_space c then trim_left s1 else
+    match s1 with
+    | [] => s
+    | d :: s2 =>
+      if is_space2 c d then trim_left s2 else
+      match s2 with
+      | [] => s
+      | e :: s3 => if is_space3 c d e then trim_left s3 else s
+      end
+    end
+  end.
+(** the same from the end, on the reversed string (the bytes of a sequence come last byte first) *)
+Fixpoint trim_left_rev (s : str) : str :=
+  match s with
+  | [] => []
+  | c :: s1 =>
+    if is_space c then trim_left_rev s1 else
+    match s1 with
+    | [] => s
+    | d :: s2 =>
+      if is_space2 d c then trim_left_rev s2 else
+      match s2 with
+      | [] => s
+      | e :: s3 => if is_space3 e d c then trim_left_rev s3 else s
+      end
+    end
+  end.
+Definition trim_space (s : str) : str := rev (trim_left_rev (rev (trim_left s))).
+
+(** strings.Fields *)
+Fixpoint fields_aux (s : str) (cur : str) : list str :=
+  let flush (rest : list str) := match cur with [] => rest | _ => rev cur :: rest end in
+  match s with
+  | [] => flush []
+  | c :: s1 =>
+    if is_space c then flush (fields_aux s1 []) else
+    match s1 with
+    | [] => fields_aux s1 (c :: cur)
+    | d :: s2 =>
+      if is_space2 c d then flush (fields_aux s2 []) else
+      match s2 with
+      | [] => fields_aux s1 (c :: cur)
+      | e :: s3 => if is_space3 c d e then flush (fields_aux s3 []) else fields_aux s1 (c :: cur)
+      end
+    end
   end.
 Definition fields (s : str) : list str := fields_aux s [].
 
